@@ -419,7 +419,7 @@ def declare(reg):
     reg.contract(
         P, "Mailbox.copy", uses_invariant=True,
         params={"self": "ref:Mailbox", "msg_set": "list[MsgElt]", "dst_mbox": "ref:Mailbox", "uid_command": "bool",
-                "imap_cmd": "opt[ref:IMAPClientCommand]"},
+                "imap_cmd": "opt[ref:IMAPClientCommand]"}, ret="tuple[list[opt[int]],list[opt[int]]]",
         requires={"wf": "wf_msgset(msg_set)", "non-empty": "len(self.msg_keys) > 0"},
         raises={"Bad": None, "MailboxInconsistency": None},
         modifies=["IMAPClientCommand.completed"],
@@ -586,6 +586,7 @@ def declare(reg):
             "disk-untouched": "same(self.mailbox.g_keys, lpre(self.mailbox.g_keys))",
         }}},
         ghost={"assume_pre_of": {"check_new_msgs_and_flags": ["E1-prefix", "E1-count"]},
+               "exposed_locals": {"msg_key": "int"},
                # stepping stones for the resync's E1 preconditions (proved here, then available to the solver): every file that appeared
                # since entry -- ours or the delivery agent's -- is numbered above every file that was there, hence above every listed key
                "call_asserts": {"check_new_msgs_and_flags": {
